@@ -16,14 +16,36 @@ def main():
     ap.add_argument("--replay", default=None)
     a = ap.parse_args()
     seed = int(os.environ.get("VERIF_SEED", "0") or 0)
-    ctx = Ctx(a.pid, a.tier, seed, a.replay)
+    tier = a.tier
+    rep = None
+    if a.replay:
+        # Replay: re-run the recorded case.  A property module may provide replay(ctx, rep) that re-executes exactly
+        # that case on model and implementation; otherwise the whole check is re-run with the recorded seed and tier
+        # (every random choice derives from the seed, so the same case is generated again).
+        import json
+        rep = json.load(open(a.replay))
+        seed = int(rep.get("seed", seed))
+        tier = rep.get("tier", tier)
+    ctx = Ctx(a.pid, tier, seed, a.replay)
+    ctx.replay_obj = rep
     try:
         mod = importlib.import_module(f"harness.props.{a.pid.lower()}")
-        mod.run(ctx)
+        if rep is not None and hasattr(mod, "replay"):
+            mod.replay(ctx, rep)
+        else:
+            mod.run(ctx)
     except Exception:  # the harness itself failed: report as broken machinery, not silently pass
         tb = traceback.format_exc()
         ctx.tie_broken("harness", "exception", tb[-3000:])
-    sys.exit(ctx.finish())
+    rc = ctx.finish()
+    if rep is not None:
+        want = rep.get("signature")
+        got = sorted({s for s, _ in ctx.oracle_failures})
+        if want is not None:
+            print(f"replay: recorded signature {want!r} " + ("REPRODUCED" if want in got else f"not reproduced (now failing: {got[:5]})"), flush=True)
+        else:
+            print(f"replay: recorded broken obligations/ties {[x.get('name') for x in rep.get('no_longer_checks', [])]}; now broken: {[b[1] for b in ctx.broken]}", flush=True)
+    sys.exit(rc)
 
 
 if __name__ == "__main__":
